@@ -376,7 +376,16 @@ func (t *Transport) doDial(
 }
 
 func (t *Transport) init(allowZeroLengthConnIDs bool) error {
+	return t.initWith(allowZeroLengthConnIDs, nil)
+}
+
+// initWith is init with an optional function that is run as part of the one-time
+// initialization, before the Transport's configuration fields are read.
+func (t *Transport) initWith(allowZeroLengthConnIDs bool, configure func()) error {
 	t.initOnce.Do(func() {
+		if configure != nil {
+			configure()
+		}
 		var conn rawConn
 		if c, ok := t.Conn.(rawConn); ok {
 			conn = c
